@@ -170,6 +170,7 @@ func cmdCheck(args []string) {
 	failedCtx := map[*Verdict]*FuncResult{}
 	total, discharged := 0, 0
 	skipped := 0
+	bindViolations := 0
 	var solverMs int64
 	assumptions := map[string]bool{}
 	externs := map[string]bool{}
@@ -192,6 +193,31 @@ func cmdCheck(args []string) {
 			res = eng.verifyFunction(k)
 		}
 		if res.Err != nil {
+			// The contract no longer binds to the code (a variable, loop or call it names is gone), so
+			// its obligations cannot even be generated. That alone is "undecided", not a violation —
+			// unless the property's replay harness shows a failing input on the real code: then the
+			// obligations that were discharged on the unchanged tree are reported as failed.
+			if pc.ReplayFile != "" && !*noReplay {
+				os.MkdirAll(filepath.Join(verifRoot(), "replays"), 0o755)
+				rp := filepath.Join(verifRoot(), "replays", id+"-"+sanitizeFile(shortKey(k))+"_contract-binds.json")
+				if d := os.Getenv("GOVC_REPLAY_DIR"); d != "" {
+					os.MkdirAll(d, 0o755)
+					rp = filepath.Join(d, id+"-"+sanitizeFile(shortKey(k))+"_contract-binds.json")
+				}
+				rep := map[string]interface{}{"property": id, "obligation": shortKey(k) + "#contract-binds", "function": k, "kind": "contract-binds",
+					"solver_status": "not generated", "solver_output": fmt.Sprint(res.Err), "model": map[string]string{}}
+				writeJSON(rp, rep)
+				out, ok := runReplay(pc, id, rp)
+				rep["replay_output"] = out
+				rep["reproduced"] = ok
+				writeJSON(rp, rep)
+				if ok {
+					fmt.Printf("VIOLATION property=%s replay=%s\n", id, rp)
+					fmt.Printf("  failed obligation: %s#contract-binds: the contract of %s cannot be established on this code (%v) and the replay harness reproduces a violation of the property on the real code\n", shortKey(k), shortKey(k), res.Err)
+					bindViolations++
+					continue
+				}
+			}
 			fmt.Printf("ERROR property=%s function %s cannot be decided: %v\n", id, k, res.Err)
 			engineErrors++
 			continue
@@ -348,7 +374,7 @@ func cmdCheck(args []string) {
 		},
 		"assumptions": trusted,
 		"wall_s":      time.Since(start).Seconds(),
-		"violations":  violations,
+		"violations":  violations + bindViolations,
 	}
 	os.MkdirAll(filepath.Join(verifRoot(), "evidence"), 0o755)
 	if out := os.Getenv("GOVC_EVIDENCE_OUT"); out != "" {
@@ -360,8 +386,8 @@ func cmdCheck(args []string) {
 		fmt.Printf("  %d further obligations were not attempted after %d failed ones\n", skipped, maxFailuresPerRun)
 	}
 	fmt.Printf("property=%s tier=%s functions=%d obligations=%d discharged=%d violations=%d engine_errors=%d wall=%.1fs\n",
-		id, *tier, len(funcs), total, discharged, violations, engineErrors, time.Since(start).Seconds())
-	if violations > 0 {
+		id, *tier, len(funcs), total, discharged, violations+bindViolations, engineErrors, time.Since(start).Seconds())
+	if violations+bindViolations > 0 {
 		os.Exit(1)
 	}
 	if engineErrors > 0 || total == 0 || (pc.MinOblig > 0 && total < pc.MinOblig) {
